@@ -1523,6 +1523,11 @@ typedef struct spifmem_memrec_t {
  */
 #define FILE_PREPROC               (0x02)
 /**
+ * File state flag:  the path string was allocated by the parser (for
+ * an %include) and is released when the file is popped.
+ */
+#define FILE_PATH_ALLOCATED        (0x04)
+/**
  * Push info for a new file onto the state stack.
  *
  * This macro adds a new file state structure to the top of the stack
